@@ -9,7 +9,7 @@ ALL = ["C%02d" % i for i in range(1, 21)]
 # id -> (technique, level text, level_note, design_ref)
 CLAIMED = {
     "C01": ("Lean 4 theorems about a loop-for-loop model of applySingleQubitGate/cx (all n, q, states) + "
-            "bit-exact differential correspondence of the executable model with the real simulator",
+            "bit-exact differential correspondence of the executable model with the real simulator + translator tie: the seven gate matrices and the built-in gate signatures are regenerated from qasm_simulator.cpp / built_ins.cpp on every run and proved equal to the model's (model_matrices_are_the_source_matrices)",
             "Machine-checked proof on the model for every register size, index and state; model tied to the "
             "current source by running both on the same histories after every operation.",
             "Trusted: Lean kernel, axioms propext/Classical.choice/Quot.sound, harness+orchestrator; floating "
@@ -23,7 +23,7 @@ CLAIMED = {
             "is an input); IEEE rounding modelled not verified. The evaluator-side agreement (returned bit = stored value = tracked "
             "outcome) is checked through the evaluator correspondence (C05/C17 harness).", "DESIGN.md §4 C02"),
     "C03": ("Lean 4 invariant proof by induction over arbitrary operation histories (size = 2^n, unit norm; allocation = psi ⊗ |0>) "
-            "+ differential correspondence + norm/size oracle on the real simulator after every operation",
+            "+ differential correspondence + norm/size oracle on the real simulator after every operation + whole-evaluator theorem by the induction principle of the evaluator model: every program leaves a 2^n state vector and never shrinks the register",
             "Proof for every finite history on the model; drift of the real floating-point state is monitored, not proved.",
             "Trusted: as C01. The qubit-handle half is a theorem about the evaluator's qubit book (free list + owners): after any history of "
             "declarations, constructions and destructions live handles are pairwise distinct and inside the register, and a new handle "
@@ -36,7 +36,7 @@ CLAIMED = {
             "Trusted: as C02. The pinned code post-selected (genuine defect, repaired by fix: fff04b3).", "DESIGN.md §4 C04"),
     "C20": ("Lean 4 theorems about a model of the updater's decision logic (numeric triple order, parse of [v]A.B.C for all "
             "A,B,C, install iff strictly newer, unparsable never acts, exact-name checksum line, notice window by induction over "
-            "arbitrary invocation sequences) + differential correspondence with the real helpers compiled in-process",
+            "arbitrary invocation sequences) + differential correspondence with the real helpers compiled in-process + notice window and disabling environment switches regenerated from update_manager.cpp and proved equal to the model's",
             "Proof for every version string / checksums file / invocation sequence on the model; tied to update_manager.cpp by "
             "running the real parseSemVer/compareSemVer/decideUpdate/parseChecksum/maybePrintNotice/checkForUpdatesIfDue on the same inputs.",
             "Trusted: Lean kernel (core-only proofs: propext, Quot.sound, Classical.choice via omega/simp), harness+orchestrator. Network fetch "
@@ -44,7 +44,7 @@ CLAIMED = {
             "DESIGN.md §4 C20"),
     "C15": ("Lean 4 theorem about a scanner-for-scanner model of lexer.cpp: for every byte string and every keyword table, accepted "
             "source = trivia/token/.../trivia with each token stamped with the independently defined position of its first byte; keyword "
-            "table regenerated from the source on every run; exact differential correspondence of token lists and lexical errors",
+            "table regenerated from the source on every run; exact differential correspondence of token lists and lexical errors + operator switch regenerated from lexer.cpp and proved to be the model's scanOp for every character and continuation",
             "Proof for every input on the model (core-only); tied to lexer.cpp by running the real Lexer and the model on the same bytes "
             "and comparing (type, text, line, column) of every token and (kind, line, column) of every lexical error.",
             "Trusted: Lean kernel (propext, Quot.sound, Classical.choice from omega/simp), table translator, harness+orchestrator; C-locale "
@@ -66,7 +66,7 @@ CLAIMED = {
             "Trusted: Lean kernel, translator for the keyword/binding tables, harness+orchestrator, ASan/UBSan.", "DESIGN.md §4 C13"),
     "C14": ("Lean 4: decide-checked theorem that the binding-power table regenerated from parser.cpp has the documented level order, "
             "left associativity and prefix/postfix placement + round-trip theorem for the Pratt core instantiated with that table + exact "
-            "differential correspondence of the whole-grammar parser model (trees with positions) + render/parse round trip on the real parser",
+            "differential correspondence of the whole-grammar parser model (trees with positions) + render/parse round trip on the real parser + parser constants (nesting limit, primitive type keyword lists) regenerated from parser.hpp/.cpp and proved equal to the model's",
             "Proof obligations re-checked against the current source through the translator; the round-trip theorem covers the Pratt "
             "core: binary levels, prefix, postfix ++, indexing, member access, calls with at most one argument, parentheses (PARTIAL "
             "beyond it); casts, new, measure, array literals, argument lists, statements and class members are covered by "
@@ -136,7 +136,7 @@ CLAIMED = {
             "program equals N independent runs with the same draws provided the tree is unchanged; the only write the evaluator makes into "
             "the shared tree (ArrayType::size) is modelled with the analyser's constant folding and shown inert on every analysed "
             "declaration; analysing twice is idempotent + differential: one parsed+analysed Program executed N times (echo on, and echo "
-            "off as multi-shot mode does) against N fresh parse-analyse-run pipelines with the same forced draws",
+            "off as multi-shot mode does) against N fresh parse-analyse-run pipelines with the same forced draws + whole-evaluator theorem: a run consumes exactly one draw per recorded outcome, from the front of its own list",
             "Proof on the model; PARTIAL: per-shot evaluator state of the C++ (statics, objects, qubit indices, measured flags, tracked "
             "counts, generic specialisations) is compared shot-by-shot against fresh pipelines on generated programs (bounded), not proved.",
             "Trusted: Lean kernel (core-only), generators, harness+orchestrator; the process-global RNG is replaced by forced draws on both sides.",
@@ -146,7 +146,7 @@ CLAIMED = {
             "logged operand is in range of the final register and cx operands are distinct; the program text is the header for the final size "
             "plus one line per performed operation + exact correspondence of the emitted text (model vs simulator, after every operation) + an "
             "independent OpenQASM 2.0 parser/interpreter written from the documented mapping that replays the text with the recorded outcomes "
-            "and compares the final state (global phase, 1e-6 angle precision); file written next to the source vs --emit-qasm output",
+            "and compares the final state (global phase, 1e-6 angle precision); file written next to the source vs --emit-qasm output + translator tie: every log line and the preamble of getQasm are regenerated from qasm_simulator.cpp on every run and proved to be what the model renders",
             "Proof on the model for every history, including the replay clause over exact complex amplitudes "
             "(replay_reaches_the_same_state: declaring the register up front and performing the logged operations with the same draws gives "
             "exactly the state, flags and log of the interleaved run — allocation commutes with every performed gate, cx, measurement and "
